@@ -25,6 +25,7 @@ class GateRun:
     def __init__(self, k, slots, nested=False, log=False, fail=(), argv=None, steal=False):
         self.k, self.slots, self.nested, self.log, self.fail = k, slots, nested, log, set(fail)
         self.steal = steal
+        self.diverged = False
         self.top = common.new_dir('gate')
         self.trace = os.path.join(self.top, '.rv-trace')
         self.argv = argv
@@ -104,9 +105,13 @@ class GateRun:
                 avail = sorted(['x' + n[1:] for n in running]) + (['tok'] if want and held > 0 else []) + (['timer'] if timer >= 0 else [])
                 if self.steal and want and held > 0:
                     avail.append('steal')
-                if step < len(plan):
-                    ev = set(plan[step])
+                if step < len(plan) and (set(plan[step]) & set(avail)):
+                    ev = set(plan[step]) & set(avail)
                 else:
+                    # also when a planned step names nothing that is possible in this run (which children are already
+                    # running at a given wake-up is not fully determined by the plan): deliver whatever can happen
+                    if step < len(plan):
+                        self.diverged = True
                     ev = set(a for a in avail if a != 'timer')     # default: everything that can happen
                     if not ev and 'timer' in avail:
                         ev = {'timer'}
